@@ -279,7 +279,9 @@ fn wait_interleaved<const G0: usize, const G1: usize, const G2: usize, const G3:
 /// disabled (symbolic mask m0 without s, symbolic s), the waiter checks (false), registers and
 /// optionally parks; then set_enabled_statuses(m1) with s enabled makes the trigger value true: the
 /// waiter must be notified (next poll Ready).
-fn enable_after_register() {
+/// PARK: 0 = the waiter does not poll before the enabling, 1 = it polls (Pending) and is parked,
+/// 2 = symbolic choice.
+fn enable_after_register<const PARK: u8>() {
     let mut w = World::new();
     let m0: [bool; NK] = kani::any();
     let s: usize = kani::any();
@@ -291,7 +293,7 @@ fn enable_after_register() {
     w.op_waiter(); // G -> false
     w.op_waiter(); // R
     assert!(w.pc == 2 && w.registered_pending);
-    let park: bool = kani::any();
+    let park: bool = if PARK == 2 { kani::any() } else { PARK == 1 };
     if park {
         w.op_waiter(); // P -> Pending
         assert!(w.parked);
@@ -299,8 +301,8 @@ fn enable_after_register() {
     let m1: [bool; NK] = kani::any();
     let hit = w.op_set_enabled(m1);
     kani::assume(hit);
-    kani::cover!(park, "status enabled after it changed, waiter parked");
-    kani::cover!(!park, "status enabled after it changed, waiter registered but not yet parked");
+    kani::cover!(park || PARK == 0, "status enabled after it changed, waiter parked");
+    kani::cover!(!park || PARK == 1, "status enabled after it changed, waiter registered but not yet parked");
     w.check();
     w.op_waiter(); // P: must be Ready (parked or not)
     assert!(w.pc == 3, "C32: no lost wake-up: a registered waiter is not left Pending while the trigger value is true");
@@ -439,6 +441,39 @@ fn c32_wait_interleaved_0001() {
 }
 
 // @check props=C32 tier=quick
+// @desc wake-up through enabling (the scenario that exposed KF-C32-1, repaired by 02ad31f): set_enabled_statuses(m0), add_communication_state(s) with s disabled in m0, waiter G (false), R, P (Pending: parked), then set_enabled_statuses(m1) that enables s: the waiter is notified (next poll Ready)
+// @bounds one operation sequence, symbolic m0, s, m1; the waiter is parked; 3 status kinds; unwind 14
+// @assume critical_section::acquire/release stubbed by no-ops (support_cs.rs): a critical section is a block no other operation interleaves with
+// @assume AtomicUsize::fetch_sub stubbed (support_cs.rs fetch_sub_never_last): the shared state behind an Arc is never destroyed or freed; Drop impls of NotificationSender run for real
+// @assume alloc::raw_vec::min_non_zero_cap stubbed by a faithful copy that, after the concrete warm-up (one earlier completed wait: both Vecs of the condition have capacity), asserts amortized Vec growth unreachable (CHECKED obligation, support_cs.rs min_non_zero_cap_checked)
+// @assume every access to the status condition is one atomic step (in the running system: one mail handled by the participant actor, status_condition_methods.rs); the async glue of WaitSetAsync::wait (mail + oneshot reply, check-all / register-all / await order) is mirrored by the waiter steps G, R, P, not executed; pinned by the source guard in vlib/ptab/channels.py
+// @assume polls use Waker::noop(): "the parked waiter is woken" is established as "NotificationSender::notify was called (next poll Ready)" + C34 (notify wakes the waker of the most recent Pending poll)
+// @assume scenario: s is disabled in m0 and enabled in m1 (kani::assume on the shadow model)
+// @enc dcps::status_condition::DcpsStatusCondition::add_communication_state
+// @enc dcps::status_condition::DcpsStatusCondition::remove_communication_state
+// @enc dcps::status_condition::DcpsStatusCondition::set_enabled_statuses
+// @enc dcps::status_condition::DcpsStatusCondition::get_trigger_value
+// @enc dcps::status_condition::DcpsStatusCondition::register_notification
+// @enc dcps::channels::notification::NotificationSender::notify
+// @enc <dcps::channels::notification::NotificationReceiver as Future>::poll
+#[kani::proof]
+#[kani::unwind(14)]
+#[kani::stub(critical_section::acquire, super::support_cs::cs_acquire)]
+#[kani::stub(critical_section::release, super::support_cs::cs_release)]
+#[kani::stub(core::sync::atomic::Atomic::<usize>::fetch_sub, super::support_cs::fetch_sub_never_last)]
+#[kani::stub(alloc::raw_vec::min_non_zero_cap, super::support_cs::min_non_zero_cap_checked)]
+fn c32_enable_after_register_parked() {
+    enable_after_register::<1>();
+}
+
+// =====================================================================================
+// thorough tier: worker slot before the check, two worker slots before the registration, longer
+// trigger-value schedules. Two worker slots with one of them AFTER the registration (placements 1001,
+// 0101, 0011) exceeded 11 GB / 1500 s on the repaired tree (set_enabled_statuses now also has the
+// drain-and-notify loop, unrolled 13 times per call once the list length is symbolic).
+// =====================================================================================
+
+// @check props=C32 tier=thorough timeout=1500
 // @desc wake-up through enabling (the scenario that exposed KF-C32-1, repaired by 02ad31f): set_enabled_statuses(m0), add_communication_state(s) with s disabled in m0, waiter G (false), R, optionally P (Pending), then set_enabled_statuses(m1) that enables s: the waiter is notified (next poll Ready)
 // @bounds one operation sequence, symbolic m0, s, m1, symbolic "waiter parked" flag; 3 status kinds; unwind 14
 // @assume critical_section::acquire/release stubbed by no-ops (support_cs.rs): a critical section is a block no other operation interleaves with
@@ -461,12 +496,8 @@ fn c32_wait_interleaved_0001() {
 #[kani::stub(core::sync::atomic::Atomic::<usize>::fetch_sub, super::support_cs::fetch_sub_never_last)]
 #[kani::stub(alloc::raw_vec::min_non_zero_cap, super::support_cs::min_non_zero_cap_checked)]
 fn c32_enable_after_register() {
-    enable_after_register();
+    enable_after_register::<2>();
 }
-
-// =====================================================================================
-// thorough tier: two symbolic worker slots, longer trigger-value schedule
-// =====================================================================================
 
 // @check props=C32 tier=thorough timeout=1500
 // @desc wake-ups: one complete wait call G (get_trigger_value), R (register_notification), P, P (polls of the NotificationReceiver) on a condition with an arbitrary enabled mask, interleaved with symbolic worker operations from {add_communication_state(s), remove_communication_state(s), set_enabled_statuses(m), nothing} in the slots: 1 before the check (G). Asserted: the value read at G and the final trigger value equal "an enabled status has changed"; wait returns immediately if it was true at G; a poll is never Pending while the trigger value is true (no lost wake-up, including a status change or the enabling of an already changed status between G and R and after the waiter parked)
@@ -494,56 +525,6 @@ fn c32_wait_interleaved_1000() {
 }
 
 // @check props=C32 tier=thorough timeout=1500
-// @desc wake-ups: one complete wait call G (get_trigger_value), R (register_notification), P, P (polls of the NotificationReceiver) on a condition with an arbitrary enabled mask, interleaved with symbolic worker operations from {add_communication_state(s), remove_communication_state(s), set_enabled_statuses(m), nothing} in the slots: 1 before the check (G); 1 between the first and the second poll. Asserted: the value read at G and the final trigger value equal "an enabled status has changed"; wait returns immediately if it was true at G; a poll is never Pending while the trigger value is true (no lost wake-up, including a status change or the enabling of an already changed status between G and R and after the waiter parked)
-// @bounds 1 condition, 1 waiter, 3 status kinds (mask bits 0, 8, 12), symbolic initial mask, 2 symbolic worker slot(s) + 4 waiter steps; unwind 14 = 13 iterations of the mask loop in DcpsStatusCondition::default() + 1 (all other loops: <= 3 list elements)
-// @assume critical_section::acquire/release stubbed by no-ops (support_cs.rs): a critical section is a block no other operation interleaves with
-// @assume AtomicUsize::fetch_sub stubbed (support_cs.rs fetch_sub_never_last): the shared state behind an Arc is never destroyed or freed; Drop impls of NotificationSender run for real
-// @assume alloc::raw_vec::min_non_zero_cap stubbed by a faithful copy that, after the concrete warm-up (one earlier completed wait: both Vecs of the condition have capacity), asserts amortized Vec growth unreachable (CHECKED obligation, support_cs.rs min_non_zero_cap_checked)
-// @assume every access to the status condition is one atomic step (in the running system: one mail handled by the participant actor, status_condition_methods.rs); the async glue of WaitSetAsync::wait (mail + oneshot reply, check-all / register-all / await order) is mirrored by the waiter steps G, R, P, not executed; pinned by the source guard in vlib/ptab/channels.py
-// @assume polls use Waker::noop(): "the parked waiter is woken" is established as "NotificationSender::notify was called (next poll Ready)" + C34 (notify wakes the waker of the most recent Pending poll)
-// @enc dcps::status_condition::DcpsStatusCondition::add_communication_state
-// @enc dcps::status_condition::DcpsStatusCondition::remove_communication_state
-// @enc dcps::status_condition::DcpsStatusCondition::set_enabled_statuses
-// @enc dcps::status_condition::DcpsStatusCondition::get_trigger_value
-// @enc dcps::status_condition::DcpsStatusCondition::register_notification
-// @enc dcps::channels::notification::NotificationSender::notify
-// @enc <dcps::channels::notification::NotificationReceiver as Future>::poll
-#[kani::proof]
-#[kani::unwind(14)]
-#[kani::stub(critical_section::acquire, super::support_cs::cs_acquire)]
-#[kani::stub(critical_section::release, super::support_cs::cs_release)]
-#[kani::stub(core::sync::atomic::Atomic::<usize>::fetch_sub, super::support_cs::fetch_sub_never_last)]
-#[kani::stub(alloc::raw_vec::min_non_zero_cap, super::support_cs::min_non_zero_cap_checked)]
-fn c32_wait_interleaved_1001() {
-    wait_interleaved::<1, 0, 0, 1>();
-}
-
-// @check props=C32 tier=thorough timeout=1500
-// @desc wake-ups: one complete wait call G (get_trigger_value), R (register_notification), P, P (polls of the NotificationReceiver) on a condition with an arbitrary enabled mask, interleaved with symbolic worker operations from {add_communication_state(s), remove_communication_state(s), set_enabled_statuses(m), nothing} in the slots: 1 between check (G) and register (R); 1 between the first and the second poll. Asserted: the value read at G and the final trigger value equal "an enabled status has changed"; wait returns immediately if it was true at G; a poll is never Pending while the trigger value is true (no lost wake-up, including a status change or the enabling of an already changed status between G and R and after the waiter parked)
-// @bounds 1 condition, 1 waiter, 3 status kinds (mask bits 0, 8, 12), symbolic initial mask, 2 symbolic worker slot(s) + 4 waiter steps; unwind 14 = 13 iterations of the mask loop in DcpsStatusCondition::default() + 1 (all other loops: <= 3 list elements)
-// @assume critical_section::acquire/release stubbed by no-ops (support_cs.rs): a critical section is a block no other operation interleaves with
-// @assume AtomicUsize::fetch_sub stubbed (support_cs.rs fetch_sub_never_last): the shared state behind an Arc is never destroyed or freed; Drop impls of NotificationSender run for real
-// @assume alloc::raw_vec::min_non_zero_cap stubbed by a faithful copy that, after the concrete warm-up (one earlier completed wait: both Vecs of the condition have capacity), asserts amortized Vec growth unreachable (CHECKED obligation, support_cs.rs min_non_zero_cap_checked)
-// @assume every access to the status condition is one atomic step (in the running system: one mail handled by the participant actor, status_condition_methods.rs); the async glue of WaitSetAsync::wait (mail + oneshot reply, check-all / register-all / await order) is mirrored by the waiter steps G, R, P, not executed; pinned by the source guard in vlib/ptab/channels.py
-// @assume polls use Waker::noop(): "the parked waiter is woken" is established as "NotificationSender::notify was called (next poll Ready)" + C34 (notify wakes the waker of the most recent Pending poll)
-// @enc dcps::status_condition::DcpsStatusCondition::add_communication_state
-// @enc dcps::status_condition::DcpsStatusCondition::remove_communication_state
-// @enc dcps::status_condition::DcpsStatusCondition::set_enabled_statuses
-// @enc dcps::status_condition::DcpsStatusCondition::get_trigger_value
-// @enc dcps::status_condition::DcpsStatusCondition::register_notification
-// @enc dcps::channels::notification::NotificationSender::notify
-// @enc <dcps::channels::notification::NotificationReceiver as Future>::poll
-#[kani::proof]
-#[kani::unwind(14)]
-#[kani::stub(critical_section::acquire, super::support_cs::cs_acquire)]
-#[kani::stub(critical_section::release, super::support_cs::cs_release)]
-#[kani::stub(core::sync::atomic::Atomic::<usize>::fetch_sub, super::support_cs::fetch_sub_never_last)]
-#[kani::stub(alloc::raw_vec::min_non_zero_cap, super::support_cs::min_non_zero_cap_checked)]
-fn c32_wait_interleaved_0101() {
-    wait_interleaved::<0, 1, 0, 1>();
-}
-
-// @check props=C32 tier=thorough timeout=1500
 // @desc wake-ups: one complete wait call G (get_trigger_value), R (register_notification), P, P (polls of the NotificationReceiver) on a condition with an arbitrary enabled mask, interleaved with symbolic worker operations from {add_communication_state(s), remove_communication_state(s), set_enabled_statuses(m), nothing} in the slots: 1 before the check (G); 1 between check (G) and register (R). Asserted: the value read at G and the final trigger value equal "an enabled status has changed"; wait returns immediately if it was true at G; a poll is never Pending while the trigger value is true (no lost wake-up, including a status change or the enabling of an already changed status between G and R and after the waiter parked)
 // @bounds 1 condition, 1 waiter, 3 status kinds (mask bits 0, 8, 12), symbolic initial mask, 2 symbolic worker slot(s) + 4 waiter steps; unwind 14 = 13 iterations of the mask loop in DcpsStatusCondition::default() + 1 (all other loops: <= 3 list elements)
 // @assume critical_section::acquire/release stubbed by no-ops (support_cs.rs): a critical section is a block no other operation interleaves with
@@ -566,31 +547,6 @@ fn c32_wait_interleaved_0101() {
 #[kani::stub(alloc::raw_vec::min_non_zero_cap, super::support_cs::min_non_zero_cap_checked)]
 fn c32_wait_interleaved_1100() {
     wait_interleaved::<1, 1, 0, 0>();
-}
-
-// @check props=C32 tier=thorough timeout=1500
-// @desc wake-ups: one complete wait call G (get_trigger_value), R (register_notification), P, P (polls of the NotificationReceiver) on a condition with an arbitrary enabled mask, interleaved with symbolic worker operations from {add_communication_state(s), remove_communication_state(s), set_enabled_statuses(m), nothing} in the slots: 1 between register (R) and the first poll; 1 between the first and the second poll. Asserted: the value read at G and the final trigger value equal "an enabled status has changed"; wait returns immediately if it was true at G; a poll is never Pending while the trigger value is true (no lost wake-up, including a status change or the enabling of an already changed status between G and R and after the waiter parked)
-// @bounds 1 condition, 1 waiter, 3 status kinds (mask bits 0, 8, 12), symbolic initial mask, 2 symbolic worker slot(s) + 4 waiter steps; unwind 14 = 13 iterations of the mask loop in DcpsStatusCondition::default() + 1 (all other loops: <= 3 list elements)
-// @assume critical_section::acquire/release stubbed by no-ops (support_cs.rs): a critical section is a block no other operation interleaves with
-// @assume AtomicUsize::fetch_sub stubbed (support_cs.rs fetch_sub_never_last): the shared state behind an Arc is never destroyed or freed; Drop impls of NotificationSender run for real
-// @assume alloc::raw_vec::min_non_zero_cap stubbed by a faithful copy that, after the concrete warm-up (one earlier completed wait: both Vecs of the condition have capacity), asserts amortized Vec growth unreachable (CHECKED obligation, support_cs.rs min_non_zero_cap_checked)
-// @assume every access to the status condition is one atomic step (in the running system: one mail handled by the participant actor, status_condition_methods.rs); the async glue of WaitSetAsync::wait (mail + oneshot reply, check-all / register-all / await order) is mirrored by the waiter steps G, R, P, not executed; pinned by the source guard in vlib/ptab/channels.py
-// @assume polls use Waker::noop(): "the parked waiter is woken" is established as "NotificationSender::notify was called (next poll Ready)" + C34 (notify wakes the waker of the most recent Pending poll)
-// @enc dcps::status_condition::DcpsStatusCondition::add_communication_state
-// @enc dcps::status_condition::DcpsStatusCondition::remove_communication_state
-// @enc dcps::status_condition::DcpsStatusCondition::set_enabled_statuses
-// @enc dcps::status_condition::DcpsStatusCondition::get_trigger_value
-// @enc dcps::status_condition::DcpsStatusCondition::register_notification
-// @enc dcps::channels::notification::NotificationSender::notify
-// @enc <dcps::channels::notification::NotificationReceiver as Future>::poll
-#[kani::proof]
-#[kani::unwind(14)]
-#[kani::stub(critical_section::acquire, super::support_cs::cs_acquire)]
-#[kani::stub(critical_section::release, super::support_cs::cs_release)]
-#[kani::stub(core::sync::atomic::Atomic::<usize>::fetch_sub, super::support_cs::fetch_sub_never_last)]
-#[kani::stub(alloc::raw_vec::min_non_zero_cap, super::support_cs::min_non_zero_cap_checked)]
-fn c32_wait_interleaved_0011() {
-    wait_interleaved::<0, 0, 1, 1>();
 }
 
 // @check props=C32 tier=thorough timeout=1500
